@@ -153,7 +153,7 @@ def _enum_cases(max_nodes, index, count):
         if k % count == index:
             size = shapes.shape_size(shape)
             # every enumerated shape is also re-checked after moving its last node under the root's first child and after detaching node 1
-            yield {"shape": forest.to_list(shape), "other": [[], [[]]], "cls": ("Node", "EqNode", "SlotLM", "FalsyNode", "Node", "EqSlotLM", "LenNode")[k % 7], "enumerated": True, "mutations": [["move", size - 1, 1], ["detach", 1], ["move", 0, size - 1]] if size >= 3 else []}
+            yield {"shape": forest.to_list(shape), "other": [[], [[]]], "cls": ("Node", "EqNode", "SlotLM", "FalsyNode", "Node", "EqSlotLM", "LenNode", "TupleNameNode", "ListNode", "TupleNode", "Node")[k % 11], "enumerated": True, "mutations": [["move", size - 1, 1], ["detach", 1], ["move", 0, size - 1]] if size >= 3 else []}
 
 
 @st.composite
